@@ -140,6 +140,27 @@ var c16Templates = [][2]string{
 
 const c16SlotLen = 4
 
+// Medium lengths: between what the symbol enumeration reaches (7) and the 30000-100000 of the long family lie the
+// sizes at which implementations switch paths (stack scratch, pooled buffers, previews cut to n characters). One
+// symbol - one to four bytes long - repeated n times, n from a ladder around the powers of two, in six positions.
+var c16MediumCache []string
+
+func c16Medium() []string {
+	if c16MediumCache != nil {
+		return c16MediumCache
+	}
+	var out []string
+	syms := append(append([]string{}, c16Sigma...), "\u4f8b", "\U0001F600")
+	for _, s := range syms {
+		for _, n := range []int{8, 16, 31, 32, 33, 43, 63, 64, 65, 100, 127, 128, 129, 200, 255, 256, 257, 511, 512, 513, 1000, 1023, 1024, 1025, 2047, 2048, 2049, 4096} {
+			x := strings.Repeat(s, n)
+			out = append(out, "stun:"+x, "stun:"+x+":x", "turn:"+x+"?transport=zzz", "stun:h:"+x, "turn:h?transport="+x, "stun:["+x+"]", "turns:a"+x+".example", "turn:a"+x+".example?transport=tcp")
+		}
+	}
+	c16MediumCache = out
+	return out
+}
+
 // IPv6 literal family: every textual shape of an IPv6 address with up to 6 groups from a small group alphabet, with
 // the "::" compression at every position or absent, with and without a trailing dotted quad, in a bare and in a
 // complete URI. (Prefixes such as "::ffff:" mean something only at one position; the shapes put them everywhere.)
@@ -243,11 +264,25 @@ func c16Item(i int64, maxLen int) string {
 	if j < c16SlotCount() {
 		return c16SlotItem(j)
 	}
-	return c16V6()[j-c16SlotCount()]
+	j -= c16SlotCount()
+	if j < int64(len(c16V6())) {
+		return c16V6()[j]
+	}
+	j -= int64(len(c16V6()))
+	// the medium family twice: in a process that has done nothing else with the library, and (second copy) after
+	// the process has used every other part of it (see c16AfterActivityFrom)
+	return c16Medium()[j%int64(len(c16Medium()))]
+}
+
+// c16AfterActivityFrom: items from this index on are parsed after the child process has performed every noise
+// activity (encoders, decoders, HMAC pools, an agent, a client that re-transmits): what ParseURI does must not
+// depend on what other parts of the library left in package-level pools.
+func c16AfterActivityFrom(maxLen int) int64 {
+	return c16Total(maxLen) - int64(len(c16Medium()))
 }
 
 func c16Total(maxLen int) int64 {
-	return c16Count(maxLen)*int64(len(c16Prefixes)) + int64(len(c16Long())) + 2*int64(len(c16Literals)) + c16SlotCount() + int64(len(c16V6()))
+	return c16Count(maxLen)*int64(len(c16Prefixes)) + int64(len(c16Long())) + 2*int64(len(c16Literals)) + c16SlotCount() + int64(len(c16V6())) + 2*int64(len(c16Medium()))
 }
 
 // uriInvariants checks what C16/C17 demand of any single ParseURI result.
@@ -287,8 +322,15 @@ func init() {
 		}()
 		acc := 0
 		cnt := c16Count(maxLen)
+		active, activeFrom := false, c16AfterActivityFrom(maxLen)
 		for i := start; i < end; i++ {
 			cur.Store(i)
+			if i >= activeFrom && !active {
+				active = true
+				for k := 0; k < noiseKinds; k++ {
+					runNoise(k)
+				}
+			}
 			if (i-start)%4096 == 0 {
 				fmt.Fprintf(w, "P %d\n", i)
 				w.Flush()
